@@ -33,7 +33,7 @@ pub static DEF: CheckDef = CheckDef {
 };
 
 fn families(t: Tier) -> Vec<(&'static str, u64)> {
-    vec![("history", t.n(5_000, 200_000)), ("untracked-then-tracked", t.n(1_500, 50_000))]
+    vec![("history", t.n(15_000, 300_000)), ("untracked-then-tracked", t.n(4_000, 80_000))]
 }
 fn floors(_t: Tier) -> Vec<(&'static str, u64)> {
     vec![
